@@ -239,7 +239,7 @@ def m_range(ctx, args, kw):
     return SymRange(*args)
 
 
-class SymRange:
+class SymRange(L.SymVal):
     def __init__(self, *a):
         if len(a) == 1:
             self.start, self.stop = 0, a[0]
